@@ -328,6 +328,45 @@ with 2.0 from stack 1; `3.0` exists for the other flavor only -/
 example : lookupEntry exCtx (exReq (some [62, 61, 32, 50, 46, 48]) 1) kVersionExpr [sCurrent]
     = .ok (.hit ⟨v20, sLinux, 1⟩ kVersionExpr) := by decide
 
+/-- `latest` is not "the first stack that has the tag": it yields a declared version such that no
+version declared anywhere on the path (for the flavor) is newer; it says "continue" only when
+nothing is declared.  (`latest` reads `Ctx.dbLatest`: `_findLatestProduct` ignores `noCache`.) -/
+theorem C03_latest_entry_is_max (C : Ctx) (g : GoodOrd C.ord.cmp) (r : Req) (post : List Str)
+    (hl : C.recognized kLatest = true) :
+    (∀ p reason, lookupEntry C r kLatest post = .ok (.hit p reason) →
+      reason = kLatest ∧ p.flavor = r.flavor ∧
+      (∃ st, C.dbLatest[p.stack]? = some st ∧ declared st r.name p.version r.flavor = true) ∧
+      ∀ (j : Nat) (st : Stack) (w : Str), C.dbLatest[j]? = some st → declared st r.name w r.flavor = true →
+        C.ord.cmp w p.version ≤ 0) ∧
+    (lookupEntry C r kLatest post = .ok .skip →
+      ∀ st ∈ C.dbLatest, ∀ w, declared st r.name w r.flavor = false) ∧
+    lookupEntry C r kLatest post ≠ .ok .abort := by
+  have hentry : lookupEntry C r kLatest post =
+      .ok (match lookupLatest C.ord.cmp C.dbLatest r.name r.flavor with
+           | some p => .hit p kLatest
+           | none => .skip) := by
+    cases hll : lookupLatest C.ord.cmp C.dbLatest r.name r.flavor <;>
+      simp [lookupEntry, show (kLatest == kPath) = false by decide, show (kLatest == kKeep) = false by decide,
+        show (kLatest == kCommandLine) = false by decide, show isVT kLatest = false by decide,
+        show isWarn kLatest = false by decide, show colon ∉ kLatest by decide, hl,
+        show (kLatest == kSetup) = false by decide, lookupTagEntry, hll]
+  rw [hentry]
+  cases hll : lookupLatest C.ord.cmp C.dbLatest r.name r.flavor with
+  | none =>
+    refine ⟨by intro p reason h; simp at h, ?_, by simp⟩
+    intro _
+    exact lookupLatest_none g hll
+  | some q =>
+    refine ⟨?_, by intro h; simp at h, by simp⟩
+    intro p reason h
+    simp only [Except.ok.injEq, Outcome.hit.injEq] at h
+    obtain ⟨rfl, rfl⟩ := h
+    obtain ⟨h1, h2, h3⟩ := lookupLatest_some g hll
+    exact ⟨rfl, h1, h2, h3⟩
+
+/-- non-vacuity: in the example database the newest Linux version, 2.0, is in the second stack -/
+example : lookupEntry exCtx (exReq none 0) kLatest [] = .ok (.hit ⟨v20, sLinux, 1⟩ kLatest) := by decide
+
 /-! ## the flavor loop -/
 
 /-- The flavor loop answers with a native-flavor declaration when one resolves: if the VRO walk for
